@@ -41,3 +41,10 @@ def run(ctx):
     pscommon.absorb(ctx, s2, "vh replay-ps (MC_PSProg calls)", "PSMachine!ScanTok eoc / SplitTransparent")
     pscommon.negative_control(ctx, vec, bfile, n=100)
     ctx.extra["split_programs"] = s2["vectors"]
+    # the same with an operation budget set (MaxOps is the caller's, as the readers of the library set it):
+    # the calls share one budget, exactly as one call would use it (family budgetcalls, BudgetSpansCalls)
+    cb = dict(consts, Family='"budgetcalls"', MaxBudget="8")
+    s3, _, _ = pscommon.run_mbt(ctx, "MC_PSProg", cb, "pscallsbudget", base_heap="FreshHeap",
+                                invariants=("Emit", "Inv", "BudgetSpansCalls"), replay_args=("-count",))
+    pscommon.absorb(ctx, s3, "vh replay-ps (MC_PSProg budgetcalls)", "PSMachine!Count across EndCall / BudgetSpansCalls")
+    ctx.extra["split_programs_under_a_budget"] = s3["vectors"]
